@@ -139,6 +139,34 @@ to `--max-duration`, any other value is the ramp's duration whatever the run's; 
 impl: `<rates>` | `err` (the builder does not expose its duration and interval). -/
 def bramp (args impl : List String) : Option (String × String) := do
   match args with
+  | [s, e, unit, rd, md, qs, eunit] =>
+    -- rates in different units: f1 refuses them; should a build accept them, they must still mean what they spell —
+    -- the ramp ends at `e` per `eunit`, i.e. e·unit/eunit per tick of the start unit
+    if eunit = unit then bramp [s, e, unit, rd, md, qs] impl else
+    let sI ← s.toInt?; let eI ← e.toInt?; let uI ← unit.toInt?; let euI ← eunit.toInt?
+    let rdI ← rd.toInt?; let mdI ← md.toInt?
+    let dur := if rdI = 0 then mdI else rdI
+    let qsI ← parseInts qs
+    let spec := match impl with
+      | ["err"] => "ok"
+      | [rates] =>
+        match parseInts rates with
+        | some outs =>
+          -- the value at the end of the ramp (last query not after t0 + dur)
+          let t0 := qsI.headD 0
+          let atEnd := ((qsI.zip outs).filter fun (q, _) => decide (q ≤ t0 + dur)).getLast?
+          match atEnd with
+          | some (q, v) =>
+            -- exact interpolation at q between s and e·u/eu, compared after multiplying through by dur·eu
+            let lhs := (v - sI) * dur * euI
+            let rhs := (q - t0) * (eI * uI - sI * euI)
+            if euI ≤ 0 ∨ dur ≤ 0 then "ok"
+            else if (lhs - rhs).natAbs ≤ (dur * euI).natAbs then "ok"
+            else s!"FAIL accepted-ramp-with-mixed-units-does-not-mean-what-its-rates-spell-got-{v}"
+          | none => "ok"
+        | none => "FAIL unparsable-impl-output"
+      | _ => "FAIL no-impl-output"
+    pure ("err", spec)
   | [s, e, unit, rd, md, qs] =>
     let rdI ← rd.toInt?; let mdI ← md.toInt?
     let dur := if rdI = 0 then mdI else rdI
